@@ -251,6 +251,7 @@ struct St {
     log: Vec<Ev>,
     uid2p: HashMap<u32, String>,
     p2uid: HashMap<String, u32>,
+    cands: HashMap<u32, Vec<String>>,
     flows: usize,
     closes: usize,
     /// when the case asks for it: a COPY of the first flow's handle kept outside the runtime (a handle that outlives its owner)
@@ -272,11 +273,42 @@ fn say(s: &Sh, line: String) {
     lk(s).log.push(Ev::S(line));
 }
 
-fn show_uid(st: &St, uid: u32) -> String {
-    match st.uid2p.get(&uid) {
-        Some(p) => format!("u:{}", p),
-        None => format!("?{}", uid),
+/// uids are shown by the NAME of the program they belong to; the name is filled in when the run is rendered (`name_uids`), because
+/// for programs with byte-identical text the install message alone does not say which name a uid belongs to - `set_program` does
+fn show_uid(_st: &St, uid: u32) -> String {
+    format!("u#{}", uid)
+}
+
+/// replace every `u#<uid>` token by `u:<program name>` (or `?<uid>`): names known for sure (unique image, or told by set_program /
+/// the flow's own compilation) first; the uids of identical images that no flow ever selected get the remaining names in order
+fn name_uids(st: &St, lines: Vec<String>) -> Vec<String> {
+    let mut map: HashMap<u32, String> = st.uid2p.clone();
+    let mut used: HashSet<String> = map.values().cloned().collect();
+    let mut open: Vec<(&u32, &Vec<String>)> = st.cands.iter().filter(|(u, _)| !map.contains_key(u)).collect();
+    open.sort();
+    for (u, names) in open {
+        let mut names = names.clone();
+        names.sort();
+        if let Some(n) = names.into_iter().find(|n| !used.contains(n)) {
+            used.insert(n.clone());
+            map.insert(*u, n);
+        }
     }
+    lines
+        .into_iter()
+        .map(|l| {
+            l.split(' ')
+                .map(|t| match t.strip_prefix("u#").and_then(|n| n.parse::<u32>().ok()) {
+                    Some(u) => match map.get(&u) {
+                        Some(p) => format!("u:{}", p),
+                        None => format!("?{}", u),
+                    },
+                    None => t.to_string(),
+                })
+                .collect::<Vec<_>>()
+                .join(" ")
+        })
+        .collect()
 }
 
 // ---------------------------------------------------------------------------------------------
@@ -321,9 +353,14 @@ impl Ipc for Sock {
         let at = |o: usize| u32::from_le_bytes([msg[o], msg[o + 1], msg[o + 2], msg[o + 3]]);
         let ev = if typ == 2 && msg.len() >= 20 {
             let uid = at(8);
-            if let Some((p, _)) = self.0.images.iter().find(|(_, im)| im[..] == msg[20..]) {
-                st.uid2p.insert(uid, p.clone());
-                st.p2uid.insert(p.clone(), uid);
+            let mut names: Vec<String> = self.0.images.iter().filter(|(_, im)| im[..] == msg[20..]).map(|(p, _)| p.clone()).collect();
+            names.sort();
+            names.dedup(); // (a program registered by several algorithms is listed once per algorithm)
+            if names.len() == 1 {
+                st.uid2p.insert(uid, names[0].clone());
+                st.p2uid.insert(names[0].clone(), uid);
+            } else if names.len() > 1 {
+                st.cands.insert(uid, names); // identical program texts: which name this uid belongs to is told by set_program
             }
             Ev::In(to.0, show_uid(&st, uid))
         } else if typ == 4 && msg.len() >= 16 {
@@ -495,6 +532,13 @@ impl Fl {
                     let v = upd.as_ref().map(as_refs);
                     match (if via_copy { &mut copy } else { &mut self.dp }).set_program(p, v.as_deref()) {
                         Ok(sc) => {
+                            {
+                                let mut st = lk(&self.sh);
+                                if st.cands.contains_key(&sc.program_uid) && !st.uid2p.contains_key(&sc.program_uid) {
+                                    st.uid2p.insert(sc.program_uid, p.to_string());
+                                    st.p2uid.insert(p.to_string(), sc.program_uid);
+                                }
+                            }
                             let l = format!("SP {} OK {}", p, show_uid(&lk(&self.sh), sc.program_uid));
                             self.scopes.insert(p.to_string(), sc.clone());
                             self.cur = Some(sc);
@@ -741,7 +785,16 @@ pub fn run(args: &[&str]) -> String {
     };
     let strong = Arc::strong_count(&flag);
     let st = lk(&sh);
-    let mut out = render(&st.log, pnames.len());
+    let named: Vec<Ev> = st
+        .log
+        .iter()
+        .map(|e| match e {
+            Ev::In(a, r) => Ev::In(*a, name_uids(&st, vec![r.clone()]).remove(0)),
+            Ev::S(l) => Ev::S(name_uids(&st, vec![l.clone()]).remove(0)),
+            Ev::Dr(d) => Ev::Dr(*d),
+        })
+        .collect();
+    let mut out = render(&named, pnames.len());
     out.push(format!("RES {} closes={} strong={} late={}", r, st.closes, strong, late));
     out.join(" | ")
 }
